@@ -53,6 +53,9 @@ func zz34Digest(algo string, data []byte, code uint64, size, length int) (mh.Mul
 		verifrt.Assume(length <= 2 || length >= size-1)
 	}
 	d := verifrt.HashUF(algo, data, size)
+	// the fixed pool CIDs (digest byte 0 = 1) are not the hash of any block of the message: otherwise the
+	// solver is free to let the uninterpreted hash hit them, which no real run can reproduce
+	verifrt.Assume(d[0] != 1)
 	return mh.Encode(d[:length], code)
 }
 
@@ -503,13 +506,6 @@ func zz34Parse(mode int) {
 		}
 		pbm.Wantlist = wl
 	}
-	nold := 0
-	if mode == 1 {
-		nold = verifrt.NondetRange("nold", 0, verifrt.Param("NOLD", 1))
-	}
-	for i := 0; i < nold; i++ {
-		pbm.Blocks = append(pbm.Blocks, verifrt.NondetBytes("old_data", verifrt.NondetRange("old_len", 1-verifrt.Param("OLDEMPTY", 1), 1)))
-	}
 	npay := verifrt.NondetRange("npay", 0, verifrt.Param("NB", 1))
 	for i := 0; i < npay; i++ {
 		var prefix []byte
@@ -538,14 +534,40 @@ func zz34Parse(mode int) {
 		}
 		pbm.Payload = append(pbm.Payload, blk)
 	}
-	npres := verifrt.NondetRange("npres", 0, verifrt.Param("NP", 1))
+	// The rest of the message is varied only around a usable first block (by the oracle's own reading of the
+	// prefix); a message whose first block is malformed carries one fixed deprecated block and one fixed
+	// presence - it has to be rejected as a whole whatever else it holds.
+	good := true
+	if mode == 1 && len(pbm.Payload) > 0 {
+		ver, codec, mht, mhl, ok := zz34ParsePrefix(pbm.Payload[0].GetPrefix())
+		good = ok && ver <= 1 && (ver == 1 || (mht == mh.SHA2_256 && mhl == 32)) &&
+			(mht == mh.IDENTITY || (mht == mh.SHA2_256 && mhl <= 32) || (mht == mh.SHA2_512 && mhl <= 64))
+		_ = codec
+	}
+	if mode == 1 {
+		nold := verifrt.Param("NOLD", 1)
+		if good {
+			nold = verifrt.NondetRange("nold", 0, nold)
+		}
+		for i := 0; i < nold; i++ {
+			olen := 1
+			if good {
+				olen = verifrt.NondetRange("old_len", 1-verifrt.Param("OLDEMPTY", 1), 1)
+			}
+			pbm.Blocks = append(pbm.Blocks, verifrt.NondetBytes("old_data", olen))
+		}
+	}
+	npres := verifrt.Param("NP", 1)
+	if good || mode != 1 {
+		npres = verifrt.NondetRange("npres", 0, npres)
+	}
 	for i := 0; i < npres; i++ {
 		var b []byte
 		if mode == 2 {
 			b = zz34CidBytes("p_cid")
 		} else {
 			b = pool[0].Bytes()
-			if len(pbm.Payload) > 0 && verifrt.NondetRange("p_cid_of_block", 0, 1) == 1 {
+			if good && len(pbm.Payload) > 0 && verifrt.NondetRange("p_cid_of_block", 0, 1) == 1 {
 				// the CID the first payload block hashes to (when its prefix is usable)
 				if ver, codec, mht, mhl, ok := zz34ParsePrefix(pbm.Payload[0].GetPrefix()); ok {
 					if ref, ok := zz34RefCid(ver, codec, mht, mhl, pbm.Payload[0].GetData()); ok {
